@@ -203,10 +203,13 @@ class Abs(Logic):
         Mux2(self, 'mux', s, a, neg, r)
         
     def structureName(self):
+        # instances with the optional 'inverted' output have a different interface
+        inv = '' if (self.getOutPortByName('inverted') is None) else '_inv'
+        
         if (self.a.getWidth() == self.r.getWidth()):
-            return f'Abs{self.a.getWidth()}'
+            return f'Abs{self.a.getWidth()}{inv}'
         else:
-            return f'Abs{self.a.getWidth()}_{self.r.getWidth()}'
+            return f'Abs{self.a.getWidth()}_{self.r.getWidth()}{inv}'
 
 
 class Neg(Logic):
